@@ -16,13 +16,13 @@ use emulator_2a_lib::parser::{Line, Programsize, Stacksize};
 pub fn meta() -> Meta {
     Meta {
         id: "C07",
-        rule: "seeded random histories over {load program, clock edges in either step mode, key interrupt, continue, CPU reset, master reset, input-register and board-input setters, step-mode switches; loaded programs write every I/O address}; after EVERY prefix each kind of reset is applied to a clone and the documented post-state is checked field by field (public getters + snapshot hooks), and a follow-up program is loaded and run in lock-step against a newly created machine with the same program and inputs. distinct_nontrivial counts distinct (reset kind, machine state before, sequencer phase before, board-outputs-dirty?, inputs-dirty?) classes",
+        rule: "seeded random histories over {load program, clock edges in either step mode, key interrupt, continue, CPU reset, master reset, input-register and board-input setters, step-mode switches; loaded programs write every I/O address}; after EVERY prefix each kind of reset is applied to a clone and the documented post-state is checked field by field (public getters + snapshot hooks), and a follow-up program (now and then cut short: empty, one or two bytes, a random prefix) is loaded and run in lock-step against a newly created machine with the same program and inputs. distinct_nontrivial counts distinct (reset kind, machine state before, sequencer phase before, board-outputs-dirty?, inputs-dirty?) classes",
         exhaustive: false,
         assumptions: vec![
             "power-on values are the documented ones: registers 0, micro-address 0, instruction register 0x02, no pending writes/interrupt/wait, ALU latch 0, outputs/MICR/UCR 0, inputs 0, timer off with dividers 0, board outputs 0 V, DAICR 0, fan 0, UIO directions input",
             "MISR, USR, UART data and the board's status/interrupt-status bits are not named by C07 and not asserted",
         ],
-        floors: vec![("histories", 500), ("prefix_resets_checked", 50_000), ("loads_compared", 5_000), ("loads_compared_in_assembly_mode", 1_000), ("history_load_limits_checked", 2_000), ("lockstep_cycles", 1_000_000), ("resets_with_dirty_board_outputs", 200), ("resets_with_dirty_sequencer", 10_000), ("resets_from_halted", 1_000), ("resets_followed_by_twin_lockstep", 10_000)],
+        floors: vec![("histories", 500), ("prefix_resets_checked", 50_000), ("loads_compared", 5_000), ("loads_compared_in_assembly_mode", 1_000), ("history_load_limits_checked", 2_000), ("lockstep_cycles", 1_000_000), ("resets_with_dirty_board_outputs", 200), ("resets_with_dirty_sequencer", 10_000), ("resets_from_halted", 1_000), ("resets_followed_by_twin_lockstep", 10_000), ("loads_of_an_empty_image", 100)],
     }
 }
 
@@ -390,18 +390,26 @@ fn run_history(h: &History, quick: bool, rep: &mut Report) -> Option<(V, usize)>
         // load of the follow-up program
         if !quick || rng.chance(1, 3) || i + 1 == h.ops.len() {
             let ss = *rng.pick(&[0u8, 1, 2, 3, 4]);
-            let ps = *rng.pick(&[-1i32, -1, 255, 255, 0, 240, h.follow.len() as i32]);
+            // now and then the image is cut short (empty, one or two bytes, a random prefix): "the image
+            // followed by zeros" must hold for these too
+            let any_cut = rng.usize(h.follow.len() + 1);
+            let cut = if rng.chance(1, 8) { *rng.pick(&[0usize, 0, 1, 2, any_cut]) } else { h.follow.len() };
+            let follow = &h.follow[..cut.min(h.follow.len())];
+            if follow.is_empty() {
+                rep.inc("loads_of_an_empty_image");
+            }
+            let ps = *rng.pick(&[-1i32, -1, 255, 255, 0, 240, follow.len() as i32]);
             let mut ml = m.clone();
-            ml.load(bytecode(&h.follow, ss_of(ss), ps_of(ps)));
+            ml.load(bytecode(follow, ss_of(ss), ps_of(ps)));
             let mut expect_ram = [0u8; 0xF0];
-            expect_ram[..h.follow.len()].copy_from_slice(&h.follow);
+            expect_ram[..follow.len()].copy_from_slice(follow);
             if ml.bus().memory()[..] != expect_ram[..] {
                 return Some((("C07:load:ram".into(), "RAM after load is not the image followed by zeros".into()), i));
             }
             if ml.stacksize() != ss_of(ss) {
                 return Some((("C07:load:stacksize".into(), "stack size after load is not the program's".into()), i));
             }
-            let exp_ps = if ps == -1 { Programsize::Size(h.follow.len() as u8) } else { ps_of(ps) };
+            let exp_ps = if ps == -1 { Programsize::Size(follow.len() as u8) } else { ps_of(ps) };
             if ml.programsize() != exp_ps {
                 return Some((("C07:load:programsize".into(), format!("program size after load {:?}, expected {:?}", ml.programsize(), exp_ps)), i));
             }
@@ -414,7 +422,7 @@ fn run_history(h: &History, quick: bool, rep: &mut Report) -> Option<(V, usize)>
                 return Some((v, i));
             }
             // behavioural: cycle for cycle as on a newly created machine
-            let mut fresh = Machine::new_with_program(MachineConfig::default(), bytecode(&h.follow, ss_of(ss), ps_of(ps)));
+            let mut fresh = Machine::new_with_program(MachineConfig::default(), bytecode(follow, ss_of(ss), ps_of(ps)));
             let asm_mode = rng.chance(1, 3);
             if asm_mode {
                 rep.inc("loads_compared_in_assembly_mode");
